@@ -565,7 +565,40 @@ def m_split(I, recv, a, k, node, kind):
     l.split_of = (recv, sep, maxsplit)
     if maxsplit == 1:
         l.max_len = 2
+    I.emit('split', node, {'recv': recv, 'sep': sep, 'maxsplit': maxsplit, 'result': l})
+    if isinstance(recv, Unk) and is_concrete(sep) and concrete(sep):
+        go = getattr(recv, 'group_of', None)
+        if go is not None:
+            elem.piece_of = (go[0], go[1], concrete(sep))
+        po = getattr(recv, 'piece_of', None)
+        if po is not None and maxsplit == 1:
+            if _pieces_always_contain(po[0], po[1], po[2], concrete(sep)):
+                l.exact_len = 2
     return l
+
+
+_LEMMA_CACHE = {}
+
+
+def _pieces_always_contain(rx, gi, sep1, sep2):
+    """Split lemma on automata: every piece of G.split(sep1) contains sep2,
+    where G ranges over the language of group gi of rx."""
+    key = (rx, gi, sep1, sep2)
+    if key not in _LEMMA_CACHE:
+        from sa import rx as RX
+        try:
+            G = RX.group_language(rx.pattern, rx.flags, gi)
+            N = G.N
+            Q = RX.intersect(RX.complement(RX.contains_substring(sep1, N)), RX.contains_substring(sep2, N))
+            allowed = RX.concat(Q, RX.star(RX.concat(RX.literal(sep1, N), Q)))
+            _LEMMA_CACHE[key] = RX.included(G, allowed) is None and _no_self_overlap(sep1)
+        except AnalysisError:
+            _LEMMA_CACHE[key] = False
+    return _LEMMA_CACHE[key]
+
+
+def _no_self_overlap(sep):
+    return all(sep[:k] != sep[-k:] for k in range(1, len(sep)))
 
 
 def m_strip(I, recv, a, k, node, kind):
@@ -575,12 +608,17 @@ def m_strip(I, recv, a, k, node, kind):
             src=('method', recv, node.func.attr, a))
     if isinstance(recv, Unk) and 'strip-truthy' in recv.facts:
         u.facts.add('truthy')
+    if hasattr(recv, 'k1_record'):
+        u.k1_record = recv.k1_record
     return u
 
 
 def m_startswith(I, recv, a, k, node, kind):
     if is_concrete(recv) and is_concrete(a[0]):
         return getattr(concrete(recv), node.func.attr)(concrete(a[0]))
+    if node.func.attr == 'endswith' and isinstance(recv, Unk) and is_concrete(a[0]) \
+            and getattr(recv, 'suffix', None) is not None and recv.suffix == concrete(a[0]):
+        return True
     kr, ka = _k(recv), kind_of(a[0])
     if kr is not None and ka is not None and len(kr) == 1 and kr <= {'str', 'bytes'}:
         if not (ka <= kr | {'tuple'}):
@@ -616,6 +654,14 @@ def m_index(I, recv, a, k, node, kind):
         if x.src[0] == 'method' and x.src[2] in ('split', 'strip', 'group') and isinstance(x.src[1], Unk):
             x = x.src[1]
             continue
+        if x.src[0] == 'method' and x.src[2] == 'group' and type(x.src[1]).__name__ == 'AMatch':
+            if x.src[1].source is recv:
+                ok = True
+            break
+        if x.src[0] == 'method' and x.src[2] == 'group' and isinstance(x.src[1], Unk) and x.src[1].src \
+                and x.src[1].src[0] == 'regex' and x.src[1].src[3] is recv:
+            ok = True
+            break
         break
     if not ok:
         I.may_raise(node, ['ValueError'], '.index of a value not known to be a substring', (recv, sub))
@@ -693,7 +739,7 @@ def m_get(I, recv, a, k, node, kind):
                 return recv.items[ks[c]]
             key.notin_sets.append(frozenset(recv.items))
             return default
-        return Unk('%s.get' % recv.name, taint=tj(recv, key), src=('item', recv, key))
+        return Unk('%s.get' % recv.name, taint=tj(recv), src=('item', recv, key))
     if isinstance(recv, Unk):
         if recv.kinds is None or not recv.kinds <= {'dict'}:
             I.may_raise(node, ['AttributeError'], '.get on a value that may not be a dict', (recv,))
